@@ -42,6 +42,23 @@ fn check_corr(o: &mut Rep, seed: u64, what: &str, a: &[f64], b: &[f64]) {
     // |r| sqrt(n) is asymptotically N(0,1) for independent samples: 7.5 sigma ~ 1e-13
     if r.abs() * (a.len() as f64).sqrt() > 7.5 { o.report("uniformity", seed, format!("C14 {}: correlation {:.5} over {} samples (independent components expected)", what, r, a.len())); }
 }
+/// 8x8 equal-frequency contingency table of two samples; under independence the statistic is chi-square with 49 degrees of
+/// freedom (mean 49, sd ~10): 250 is some twenty standard deviations out
+fn check_indep(o: &mut Rep, seed: u64, what: &str, a: &[f64], b: &[f64]) {
+    let rank = |v: &[f64]| -> Vec<usize> {
+        let mut idx: Vec<usize> = (0..v.len()).collect();
+        idx.sort_by(|&i, &j| v[i].partial_cmp(&v[j]).unwrap());
+        let mut bin = vec![0usize; v.len()];
+        for (r, &i) in idx.iter().enumerate() { bin[i] = r * 8 / v.len(); }
+        bin
+    };
+    let (ra, rb) = (rank(a), rank(b));
+    let mut t = [[0f64; 8]; 8];
+    for i in 0..a.len() { t[ra[i]][rb[i]] += 1.0; }
+    let e = a.len() as f64 / 64.0;
+    let chi2: f64 = t.iter().flatten().map(|c| (c - e) * (c - e) / e).sum();
+    if chi2 > 250.0 { o.report("uniformity", seed, format!("C14 {}: chi-square statistic {:.0} of the 8x8 contingency table over {} samples (49 degrees of freedom; independent components expected)", what, chi2, a.len())); }
+}
 fn unif(lo: f64, hi: f64) -> impl Fn(f64) -> f64 { move |x| ((x - lo) / (hi - lo)).clamp(0.0, 1.0) }
 /// rotation angle law of the Haar measure: F(theta) = (theta - sin theta) / PI on [0, PI]; conditioned on theta <= a
 fn haar_angle(a: f64) -> impl Fn(f64) -> f64 { move |t| { let f = |t: f64| (t - t.sin()) / PI; (f(t.clamp(0.0, a)) / f(a)).clamp(0.0, 1.0) } }
@@ -125,6 +142,23 @@ fn compound(o: &mut Rep, seed: u64) {
     check_corr(o, seed, "compound: x and angle", &x, &t);
     check_corr(o, seed, "compound: y and |q.w|", &y, &qw);
     check_corr(o, seed, "compound: angle and |q.w|", &t, &qw);
+    // layouts in which a component that consumes many draws comes BEFORE another one: SO(3) first, a 10-dimensional box first
+    {
+        let sp = CompoundStateSpace::new(vec![Box::new(SO3StateSpace::new(None).unwrap()), Box::new(RealVectorStateSpace::new(3, Some(vec![(0.0, 1.0); 3])).unwrap())], vec![1.0, 1.0]);
+        let mut rng = StdRng::seed_from_u64(seed);
+        let ss: Vec<_> = (0..N / 2).map(|_| sp.sample_uniform(&mut rng).unwrap()).collect();
+        let q: Vec<&SO3State> = ss.iter().map(|s| (&*s.components[0] as &dyn Any).downcast_ref::<SO3State>().unwrap()).collect();
+        let v: Vec<&RealVectorState> = ss.iter().map(|s| (&*s.components[1] as &dyn Any).downcast_ref::<RealVectorState>().unwrap()).collect();
+        for (qn, qc) in [("q.x", q.iter().map(|s| s.x).collect::<Vec<f64>>()), ("q.w", q.iter().map(|s| s.w).collect::<Vec<f64>>())] {
+            for j in 0..3 { check_indep(o, seed, &format!("compound SO3 x R^3: {} and coordinate {}", qn, j), &qc, &v.iter().map(|s| s.values[j]).collect::<Vec<f64>>()); }
+        }
+        let sp = CompoundStateSpace::new(vec![Box::new(RealVectorStateSpace::new(10, Some(vec![(-1.0, 1.0); 10])).unwrap()), Box::new(SO2StateSpace::new(None).unwrap())], vec![1.0, 1.0]);
+        let mut rng = StdRng::seed_from_u64(seed);
+        let ss: Vec<_> = (0..N / 2).map(|_| sp.sample_uniform(&mut rng).unwrap()).collect();
+        let ang: Vec<f64> = ss.iter().map(|s| (&*s.components[1] as &dyn Any).downcast_ref::<SO2State>().unwrap().value).collect();
+        check_ks(o, seed, "compound R^10 x SO2: angle", ang.clone(), &unif(-PI, PI));
+        for j in 0..10 { check_indep(o, seed, &format!("compound R^10 x SO2: coordinate {} and angle", j), &ss.iter().map(|s| (&*s.components[0] as &dyn Any).downcast_ref::<RealVectorState>().unwrap().values[j]).collect::<Vec<f64>>(), &ang); }
+    }
     // SE(2) / SE(3)
     let se2 = SE2StateSpace::new(1.0, Some(vec![(0.0, 1.0), (-3.0, 3.0), (-1.0, 2.0)])).unwrap();
     let mut rng = StdRng::seed_from_u64(seed);
